@@ -1,9 +1,222 @@
-/* C models of the llvm.x86.* target intrinsics left in clang's IR (assumed contracts of the hardware;
- * written from the Intel SDM / LLVM LangRef; differential-tested natively by tools/modeltest). */
+/* C models of the llvm.x86.* target intrinsics that remain in clang's IR (everything else is lowered by
+ * clang's own headers to generic IR).  These are the assumed contracts of the hardware, written from the
+ * Intel SDM; tools/modeltest differential-tests each against the real instruction where the host has it.
+ * Each model is compiled only when the translation unit needs it (NEED_<name>). */
 #ifndef LL2C_MODELS_H
 #define LL2C_MODELS_H
-#ifdef NEED_llvm_x86_sse2_psrai_w
-static inline v8u16 llvm_x86_sse2_psrai_w(v8u16 a, u32 c) {
-  v8u16 r; for (int i = 0; i < 8; ++i) r.e[i] = (u16)((s16)a.e[i] >> (c > 15 ? 15 : c)); return r; }
+
+/* ---- shifts by a scalar count: count >= width gives 0 (logical) / sign fill (arithmetic) ---------------- */
+#define MODEL_SLL(name, VT, N, W) static inline VT name(VT a, u32 c) { VT r; for (int i = 0; i < N; ++i) r.e[i] = c >= W ? 0 : (u##W)(a.e[i] << c); return r; }
+#define MODEL_SRL(name, VT, N, W) static inline VT name(VT a, u32 c) { VT r; for (int i = 0; i < N; ++i) r.e[i] = c >= W ? 0 : (u##W)(a.e[i] >> c); return r; }
+#define MODEL_SRA(name, VT, N, W) static inline VT name(VT a, u32 c) { VT r; for (int i = 0; i < N; ++i) r.e[i] = (u##W)((s##W)a.e[i] >> (c >= W ? W - 1 : c)); return r; }
+/* per-lane counts */
+#define MODEL_SLLV(name, VT, N, W) static inline VT name(VT a, VT c) { VT r; for (int i = 0; i < N; ++i) r.e[i] = c.e[i] >= W ? 0 : (u##W)(a.e[i] << c.e[i]); return r; }
+#define MODEL_SRLV(name, VT, N, W) static inline VT name(VT a, VT c) { VT r; for (int i = 0; i < N; ++i) r.e[i] = c.e[i] >= W ? 0 : (u##W)(a.e[i] >> c.e[i]); return r; }
+#define MODEL_SRAV(name, VT, N, W) static inline VT name(VT a, VT c) { VT r; for (int i = 0; i < N; ++i) r.e[i] = (u##W)((s##W)a.e[i] >> (c.e[i] >= W ? W - 1 : c.e[i])); return r; }
+/* count taken from the low 64 bits of a vector register (psll/psrl/psra with xmm count) */
+#define MODEL_SLLX(name, VT, N, W, CT, CW) static inline VT name(VT a, CT cv) { u64 c = LL_LOW64_##CW(cv); VT r; for (int i = 0; i < N; ++i) r.e[i] = c >= W ? 0 : (u##W)(a.e[i] << c); return r; }
+#define MODEL_SRLX(name, VT, N, W, CT, CW) static inline VT name(VT a, CT cv) { u64 c = LL_LOW64_##CW(cv); VT r; for (int i = 0; i < N; ++i) r.e[i] = c >= W ? 0 : (u##W)(a.e[i] >> c); return r; }
+#define MODEL_SRAX(name, VT, N, W, CT, CW) static inline VT name(VT a, CT cv) { u64 c = LL_LOW64_##CW(cv); VT r; for (int i = 0; i < N; ++i) r.e[i] = (u##W)((s##W)a.e[i] >> (c >= W ? W - 1 : c)); return r; }
+#define LL_LOW64_16(v) ((u64)(v).e[0] | ((u64)(v).e[1] << 16) | ((u64)(v).e[2] << 32) | ((u64)(v).e[3] << 48))
+#define LL_LOW64_32(v) ((u64)(v).e[0] | ((u64)(v).e[1] << 32))
+#define LL_LOW64_64(v) ((u64)(v).e[0])
+
+#ifdef NEED_llvm_x86_sse2_pslli_w
+MODEL_SLL(llvm_x86_sse2_pslli_w, v8u16, 8, 16)
 #endif
+#ifdef NEED_llvm_x86_sse2_pslli_d
+MODEL_SLL(llvm_x86_sse2_pslli_d, v4u32, 4, 32)
+#endif
+#ifdef NEED_llvm_x86_sse2_pslli_q
+MODEL_SLL(llvm_x86_sse2_pslli_q, v2u64, 2, 64)
+#endif
+#ifdef NEED_llvm_x86_sse2_psrli_w
+MODEL_SRL(llvm_x86_sse2_psrli_w, v8u16, 8, 16)
+#endif
+#ifdef NEED_llvm_x86_sse2_psrli_d
+MODEL_SRL(llvm_x86_sse2_psrli_d, v4u32, 4, 32)
+#endif
+#ifdef NEED_llvm_x86_sse2_psrli_q
+MODEL_SRL(llvm_x86_sse2_psrli_q, v2u64, 2, 64)
+#endif
+#ifdef NEED_llvm_x86_sse2_psrai_w
+MODEL_SRA(llvm_x86_sse2_psrai_w, v8u16, 8, 16)
+#endif
+#ifdef NEED_llvm_x86_sse2_psrai_d
+MODEL_SRA(llvm_x86_sse2_psrai_d, v4u32, 4, 32)
+#endif
+#ifdef NEED_llvm_x86_avx2_pslli_w
+MODEL_SLL(llvm_x86_avx2_pslli_w, v16u16, 16, 16)
+#endif
+#ifdef NEED_llvm_x86_avx2_pslli_d
+MODEL_SLL(llvm_x86_avx2_pslli_d, v8u32, 8, 32)
+#endif
+#ifdef NEED_llvm_x86_avx2_pslli_q
+MODEL_SLL(llvm_x86_avx2_pslli_q, v4u64, 4, 64)
+#endif
+#ifdef NEED_llvm_x86_avx2_psrli_w
+MODEL_SRL(llvm_x86_avx2_psrli_w, v16u16, 16, 16)
+#endif
+#ifdef NEED_llvm_x86_avx2_psrli_d
+MODEL_SRL(llvm_x86_avx2_psrli_d, v8u32, 8, 32)
+#endif
+#ifdef NEED_llvm_x86_avx2_psrli_q
+MODEL_SRL(llvm_x86_avx2_psrli_q, v4u64, 4, 64)
+#endif
+#ifdef NEED_llvm_x86_avx2_psrai_w
+MODEL_SRA(llvm_x86_avx2_psrai_w, v16u16, 16, 16)
+#endif
+#ifdef NEED_llvm_x86_avx2_psrai_d
+MODEL_SRA(llvm_x86_avx2_psrai_d, v8u32, 8, 32)
+#endif
+#ifdef NEED_llvm_x86_avx512_pslli_w_512
+MODEL_SLL(llvm_x86_avx512_pslli_w_512, v32u16, 32, 16)
+#endif
+#ifdef NEED_llvm_x86_avx512_pslli_d_512
+MODEL_SLL(llvm_x86_avx512_pslli_d_512, v16u32, 16, 32)
+#endif
+#ifdef NEED_llvm_x86_avx512_pslli_q_512
+MODEL_SLL(llvm_x86_avx512_pslli_q_512, v8u64, 8, 64)
+#endif
+#ifdef NEED_llvm_x86_avx512_psrli_w_512
+MODEL_SRL(llvm_x86_avx512_psrli_w_512, v32u16, 32, 16)
+#endif
+#ifdef NEED_llvm_x86_avx512_psrli_d_512
+MODEL_SRL(llvm_x86_avx512_psrli_d_512, v16u32, 16, 32)
+#endif
+#ifdef NEED_llvm_x86_avx512_psrli_q_512
+MODEL_SRL(llvm_x86_avx512_psrli_q_512, v8u64, 8, 64)
+#endif
+#ifdef NEED_llvm_x86_avx512_psrai_w_512
+MODEL_SRA(llvm_x86_avx512_psrai_w_512, v32u16, 32, 16)
+#endif
+#ifdef NEED_llvm_x86_avx512_psrai_d_512
+MODEL_SRA(llvm_x86_avx512_psrai_d_512, v16u32, 16, 32)
+#endif
+#ifdef NEED_llvm_x86_avx512_psrai_q_512
+MODEL_SRA(llvm_x86_avx512_psrai_q_512, v8u64, 8, 64)
+#endif
+#ifdef NEED_llvm_x86_avx512_psrai_q_256
+MODEL_SRA(llvm_x86_avx512_psrai_q_256, v4u64, 4, 64)
+#endif
+#ifdef NEED_llvm_x86_avx512_psrai_q_128
+MODEL_SRA(llvm_x86_avx512_psrai_q_128, v2u64, 2, 64)
+#endif
+
+#ifdef NEED_llvm_x86_avx2_psllv_d
+MODEL_SLLV(llvm_x86_avx2_psllv_d, v4u32, 4, 32)
+#endif
+#ifdef NEED_llvm_x86_avx2_psllv_q
+MODEL_SLLV(llvm_x86_avx2_psllv_q, v2u64, 2, 64)
+#endif
+#ifdef NEED_llvm_x86_avx2_psllv_d_256
+MODEL_SLLV(llvm_x86_avx2_psllv_d_256, v8u32, 8, 32)
+#endif
+#ifdef NEED_llvm_x86_avx2_psllv_q_256
+MODEL_SLLV(llvm_x86_avx2_psllv_q_256, v4u64, 4, 64)
+#endif
+#ifdef NEED_llvm_x86_avx2_psrlv_d
+MODEL_SRLV(llvm_x86_avx2_psrlv_d, v4u32, 4, 32)
+#endif
+#ifdef NEED_llvm_x86_avx2_psrlv_q
+MODEL_SRLV(llvm_x86_avx2_psrlv_q, v2u64, 2, 64)
+#endif
+#ifdef NEED_llvm_x86_avx2_psrlv_d_256
+MODEL_SRLV(llvm_x86_avx2_psrlv_d_256, v8u32, 8, 32)
+#endif
+#ifdef NEED_llvm_x86_avx2_psrlv_q_256
+MODEL_SRLV(llvm_x86_avx2_psrlv_q_256, v4u64, 4, 64)
+#endif
+#ifdef NEED_llvm_x86_avx2_psrav_d
+MODEL_SRAV(llvm_x86_avx2_psrav_d, v4u32, 4, 32)
+#endif
+#ifdef NEED_llvm_x86_avx2_psrav_d_256
+MODEL_SRAV(llvm_x86_avx2_psrav_d_256, v8u32, 8, 32)
+#endif
+#ifdef NEED_llvm_x86_avx512_psllv_d_512
+MODEL_SLLV(llvm_x86_avx512_psllv_d_512, v16u32, 16, 32)
+#endif
+#ifdef NEED_llvm_x86_avx512_psllv_q_512
+MODEL_SLLV(llvm_x86_avx512_psllv_q_512, v8u64, 8, 64)
+#endif
+#ifdef NEED_llvm_x86_avx512_psllv_w_512
+MODEL_SLLV(llvm_x86_avx512_psllv_w_512, v32u16, 32, 16)
+#endif
+#ifdef NEED_llvm_x86_avx512_psrlv_d_512
+MODEL_SRLV(llvm_x86_avx512_psrlv_d_512, v16u32, 16, 32)
+#endif
+#ifdef NEED_llvm_x86_avx512_psrlv_q_512
+MODEL_SRLV(llvm_x86_avx512_psrlv_q_512, v8u64, 8, 64)
+#endif
+#ifdef NEED_llvm_x86_avx512_psrlv_w_512
+MODEL_SRLV(llvm_x86_avx512_psrlv_w_512, v32u16, 32, 16)
+#endif
+#ifdef NEED_llvm_x86_avx512_psrav_d_512
+MODEL_SRAV(llvm_x86_avx512_psrav_d_512, v16u32, 16, 32)
+#endif
+#ifdef NEED_llvm_x86_avx512_psrav_q_512
+MODEL_SRAV(llvm_x86_avx512_psrav_q_512, v8u64, 8, 64)
+#endif
+#ifdef NEED_llvm_x86_avx512_psrav_w_512
+MODEL_SRAV(llvm_x86_avx512_psrav_w_512, v32u16, 32, 16)
+#endif
+
+/* ---- rounded unsigned average ---------------------------------------------------------------------------- */
+#define MODEL_PAVG(name, VT, N, W) static inline VT name(VT a, VT b) { VT r; for (int i = 0; i < N; ++i) r.e[i] = (u##W)(((u32)a.e[i] + (u32)b.e[i] + 1) >> 1); return r; }
+#ifdef NEED_llvm_x86_sse2_pavg_b
+MODEL_PAVG(llvm_x86_sse2_pavg_b, v16u8, 16, 8)
+#endif
+#ifdef NEED_llvm_x86_sse2_pavg_w
+MODEL_PAVG(llvm_x86_sse2_pavg_w, v8u16, 8, 16)
+#endif
+#ifdef NEED_llvm_x86_avx2_pavg_b
+MODEL_PAVG(llvm_x86_avx2_pavg_b, v32u8, 32, 8)
+#endif
+#ifdef NEED_llvm_x86_avx2_pavg_w
+MODEL_PAVG(llvm_x86_avx2_pavg_w, v16u16, 16, 16)
+#endif
+#ifdef NEED_llvm_x86_avx512_pavg_b_512
+MODEL_PAVG(llvm_x86_avx512_pavg_b_512, v64u8, 64, 8)
+#endif
+#ifdef NEED_llvm_x86_avx512_pavg_w_512
+MODEL_PAVG(llvm_x86_avx512_pavg_w_512, v32u16, 32, 16)
+#endif
+
+/* ---- variable blends: the most significant bit of each mask lane selects the second operand -------------- */
+#define MODEL_BLENDV_I(name, VT, N) static inline VT name(VT a, VT b, VT m) { VT r; for (int i = 0; i < N; ++i) r.e[i] = (m.e[i] & 0x80) ? b.e[i] : a.e[i]; return r; }
+#define MODEL_BLENDV_F(name, VT, N, W) static inline VT name(VT a, VT b, VT m) { VT r; for (int i = 0; i < N; ++i) r.e[i] = (F2U##W(m.e[i]) >> (W - 1)) ? b.e[i] : a.e[i]; return r; }
+#ifdef NEED_llvm_x86_sse41_pblendvb
+MODEL_BLENDV_I(llvm_x86_sse41_pblendvb, v16u8, 16)
+#endif
+#ifdef NEED_llvm_x86_avx2_pblendvb
+MODEL_BLENDV_I(llvm_x86_avx2_pblendvb, v32u8, 32)
+#endif
+#ifdef NEED_llvm_x86_sse41_blendvps
+MODEL_BLENDV_F(llvm_x86_sse41_blendvps, v4f32, 4, 32)
+#endif
+#ifdef NEED_llvm_x86_sse41_blendvpd
+MODEL_BLENDV_F(llvm_x86_sse41_blendvpd, v2f64, 2, 64)
+#endif
+#ifdef NEED_llvm_x86_avx_blendv_ps_256
+MODEL_BLENDV_F(llvm_x86_avx_blendv_ps_256, v8f32, 8, 32)
+#endif
+#ifdef NEED_llvm_x86_avx_blendv_pd_256
+MODEL_BLENDV_F(llvm_x86_avx_blendv_pd_256, v4f64, 4, 64)
+#endif
+
+/* ---- AVX-512 down-converts with write mask ------------------------------------------------------------------ */
+#ifdef NEED_llvm_x86_avx512_mask_pmov_dw_512
+static inline v16u16 llvm_x86_avx512_mask_pmov_dw_512(v16u32 a, v16u16 src, u16 k) {
+  v16u16 r; for (int i = 0; i < 16; ++i) r.e[i] = ((k >> i) & 1) ? (u16)a.e[i] : src.e[i]; return r; }
+#endif
+#ifdef NEED_llvm_x86_avx512_mask_pmov_db_512
+static inline v16u8 llvm_x86_avx512_mask_pmov_db_512(v16u32 a, v16u8 src, u16 k) {
+  v16u8 r; for (int i = 0; i < 16; ++i) r.e[i] = ((k >> i) & 1) ? (u8)a.e[i] : src.e[i]; return r; }
+#endif
+#ifdef NEED_llvm_x86_avx512_mask_pmov_wb_512
+static inline v32u8 llvm_x86_avx512_mask_pmov_wb_512(v32u16 a, v32u8 src, u32 k) {
+  v32u8 r; for (int i = 0; i < 32; ++i) r.e[i] = ((k >> i) & 1) ? (u8)a.e[i] : src.e[i]; return r; }
+#endif
+
+#include "ll2c_models2.h"
 #endif
